@@ -488,4 +488,4 @@ CLAIM = ("Seeded search over thread schedules of one locking-enabled library ins
          "(call boundaries, lock/unlock, file operations, and forced switches at instrumented control-flow edges of the repository code), so a schedule is a pure function of the seed and replays exactly. Necessary "
          "conditions of the statement are checked: no crash / sanitizer report (a use-after-free exposed by a forced interleaving is one) / exit / deadlock / step-budget overrun; no handle issued twice; searches and "
          "reads explainable at some point between invocation and return; objects conserved at quiescence and after restart; mutex discipline. Evidence, not proof; TSan is not part of the oracle (blind under a serialising scheduler).")
-NOTE = "Trusted: the scheduler (only one thread runs; code inside libcrypto/libstdc++ is atomic to it), ASan. File back end only, as the property says. C_CloseAllSessions/C_Finalize/C_InitToken are only issued at quiescent points (their concurrent use is an application error under PKCS#11)."
+NOTE = "Trusted: the scheduler (only one thread runs; code inside libcrypto/libstdc++ is atomic to it), ASan; schedules come from four policies (coin flip at every yield, pre-emption at instrumented edges, long pre-emptions placed by a counting pass, guided replay). File back end only, as the property says. C_CloseAllSessions/C_Finalize/C_InitToken are only issued at quiescent points (their concurrent use is an application error under PKCS#11)."
